@@ -9,7 +9,18 @@ pub struct C06c;
 pub static C06: C06c = C06c;
 
 fn gen_finish(g: &mut Rng, id: &str, last: bool, allow_panic: bool) -> Finish {
-    match g.below(12) {
+    match g.below(13) {
+        12 => {
+            // the body source reports an error after it has delivered the complete declared body:
+            // respond() fails, but the response is complete and must stay the only one
+            let len = *g.pick(&[1usize, 10, 1500, 9000]);
+            let mut spec = RespSpec::simple(200, token_body(id, len));
+            spec.ctor = Ctor::New;
+            spec.declared = Some(len);
+            spec.pieces = vec![*g.pick(&[1usize, 100, 8192])];
+            spec.fail_at_end = true;
+            Finish::Respond(spec)
+        }
         0..=3 => Finish::Respond(RespSpec::simple(
             *g.pick(&[200u16, 201, 404, 503]),
             token_body(id, *g.pick(&[0usize, 10, 1500, 9000])),
@@ -97,7 +108,8 @@ impl Campaign for C06c {
                         finish,
                     },
                 );
-                msgs.push(rq.bytes());
+                let is_upgrade = rq.headers.iter().any(|h| h.0 == "Upgrade");
+                msgs.push(if is_upgrade { rq.bytes() } else { spice(&mut g, rq, true, false).bytes() });
             }
             let seg = *g.pick(&[Seg::Whole, Seg::PerMessage, Seg::Random(3)]);
             let mut c = ConnScript {
@@ -207,7 +219,11 @@ impl Campaign for C06c {
                 .collect();
             let heads: Vec<bool> = exp.iter().map(|e| e.2).collect();
             // only the part of the wire received before the epilogue counts for liveness
-            let main_len = main.conns.get(ci).map(|c| c.received_len).unwrap_or(0);
+            // a respond() that fails after the complete body (failing body source) returns before its
+            // final flush: the bytes legitimately reach the client with a later flush or at the close,
+            // so such scenarios are judged on the whole stream ("never answered twice")
+            let failing_source = sc.programs.values().any(|p| matches!(&p.finish, Finish::Respond(s) if s.fail_at_end));
+            let main_len = if failing_source { co.received.0.len() } else { main.conns.get(ci).map(|c| c.received_len).unwrap_or(0) };
             let bytes = &co.received.0[..main_len.min(co.received.0.len())];
             let parsed = crate::httpmodel::parse_responses(bytes, &|k| heads.get(k).copied().unwrap_or(false));
             if parsed.error.is_some() {
